@@ -126,7 +126,7 @@ static unsigned int irc_pton_ip4(const char *input, unsigned int *pbits,
             *pbits = bits;
         return pos;
     case '.':
-        if (input[++pos] == '.')
+        if (dots >= 3 || input[++pos] == '.')
             return 0;
         ip |= part << (24 - 8 * dots++);
         part = 0;
